@@ -171,6 +171,12 @@ def commandLoop (maxOff : Nat) (f : Bytes) (nameCap : Nat) (be bits64 : Bool) : 
         -- `file.skip(size - 8)`: `uint32_t` arithmetic, then `fseek(fp, (long)..., SEEK_CUR)`
         commandLoop maxOff f nameCap be bits64 fuel (left - 1) { pos := p.pos + (size - 8#32).toNat, eof := false } st
 
+/-- the load command loop and the two assignments after it -/
+def runCommands (maxOff : Nat) (f : Bytes) (nameCap : Nat) (be bits64 : Bool) (ncmds : Nat) (p : FPos) : Except Fault Loaded :=
+  match commandLoop maxOff f nameCap be bits64 (f.size + 2) ncmds p {} with
+  | .error e => .error e
+  | .ok st => .ok { ret := 0, mem := { st.mem with low := st.start.toNat, high := st.stop.toNat }, syms := st.syms }
+
 /-- `read_macho` -/
 def read (maxOff : Nat) (f : Bytes) (nameCap : Nat := 128) : Except Fault Loaded :=
   let (magicLe, p) := getInt32 false f {}
@@ -190,8 +196,6 @@ def read (maxOff : Nat) (f : Bytes) (nameCap : Nat := 128) : Except Fault Loaded
     let cpuType := if bits64 then cpuType ^^^ 0x01000000#32 else cpuType
     -- `case 0x00000012: *cpu_type = CPU_TYPE_POWERPC; file.set_endian(FileIo::FILE_ENDIAN_BIG);`
     let be : Bool := be || cpuType = 0x12#32
-    match commandLoop maxOff f nameCap be bits64 (f.size + 2) ncmds.toNat p {} with
-    | .error e => .error e
-    | .ok st => .ok { ret := 0, mem := { st.mem with low := st.start.toNat, high := st.stop.toNat }, syms := st.syms }
+    runCommands maxOff f nameCap be bits64 ncmds.toNat p
 
 end NakenVerif.Safe.Macho
